@@ -174,7 +174,25 @@ Idl == [
              args |-> <<[id |-> 1, k |-> "x"]>>],
   drop  |-> [nm |-> <<100, 114, 111, 112>>, oneway |-> FALSE, void |-> TRUE,
              exc |-> <<[id |-> 1, cls |-> "Boom"]>>,
-             args |-> <<[id |-> 1, k |-> "key"]>>]
+             args |-> <<[id |-> 1, k |-> "key"]>>],
+  \* service Other (gen_py_x/other): methods NAMED like the ones above (same wire name nm) but with
+  \* different argument lists / result types; the key carries the interface, the wire name does not.
+  other_hi    |-> [nm |-> <<104, 105>>, oneway |-> FALSE, void |-> FALSE, exc |-> <<>>,
+                   args |-> <<[id |-> 1, k |-> "n"]>>],
+  other_echo  |-> [nm |-> <<101, 99, 104, 111>>, oneway |-> FALSE, void |-> FALSE, exc |-> <<>>,
+                   args |-> <<[id |-> 1, k |-> "v"], [id |-> 2, k |-> "tag"]>>],
+  other_add   |-> [nm |-> <<97, 100, 100>>, oneway |-> FALSE, void |-> FALSE, exc |-> <<>>,
+                   args |-> <<[id |-> 1, k |-> "a"], [id |-> 2, k |-> "b"]>>],
+  other_ping  |-> [nm |-> <<112, 105, 110, 103>>, oneway |-> FALSE, void |-> FALSE, exc |-> <<>>,
+                   args |-> <<[id |-> 1, k |-> "token"]>>],
+  other_count |-> [nm |-> <<99, 111, 117, 110, 116>>, oneway |-> FALSE, void |-> FALSE, exc |-> <<>>,
+                   args |-> <<[id |-> 1, k |-> "upto"]>>],
+  other_reset |-> [nm |-> <<114, 101, 115, 101, 116>>, oneway |-> FALSE, void |-> FALSE, exc |-> <<>>,
+                   args |-> <<[id |-> 1, k |-> "name"], [id |-> 2, k |-> "hard"]>>],
+  other_twice |-> [nm |-> <<116, 119, 105, 99, 101>>, oneway |-> FALSE, void |-> FALSE, exc |-> <<>>,
+                   args |-> <<[id |-> 1, k |-> "x"]>>],
+  other_drop  |-> [nm |-> <<100, 114, 111, 112>>, oneway |-> FALSE, void |-> TRUE, exc |-> <<>>,
+                   args |-> <<[id |-> 1, k |-> "key"], [id |-> 2, k |-> "count"]>>]
 ]
 
 Methods == DOMAIN Idl
